@@ -915,6 +915,14 @@ def inline_fresh_helpers(modules, baseline=None, rounds=4):
                                 grew = True
                     for cn in sorted(desc - {h.cls.name}):
                         fns += [s for s in classes[cn].body if isinstance(s, ast.FunctionDef)]
+                    # ... and when a decorator factory's wrapper (module level, `def wrapper(self, ...)`) or a method of an unrelated class calls it on its receiver
+                    have_ = {id(x) for x in fns}
+                    for m_ in modules.values():
+                        for st in m_.tree.body:
+                            if isinstance(st, ast.FunctionDef) and id(st) not in have_ and st is not h.node:
+                                fns.append(st)
+                            elif isinstance(st, ast.ClassDef) and st.name not in desc:
+                                fns.extend(s for s in st.body if isinstance(s, ast.FunctionDef) and id(s) not in have_ and s is not h.node)
             else:
                 fns = []
                 for st in m.tree.body:
